@@ -109,6 +109,9 @@ class Ctx:
         self.skips = {}
         self.notes = []
         self.known = load_known().get(prop, [])
+        import glob
+        for f in glob.glob(os.path.join(VERIF, "replays", f"{prop}-{seed}-*.json")):
+            os.remove(f)
 
     # ------------------------------------------------------------ bookkeeping
     def drv(self):
